@@ -24,6 +24,15 @@ def ratAbs (x : Rat) : Rat := if x < 0 then -x else x
 /-- l.88: the stored similarity is the absolute value of the given one -/
 def absSim (S0 : Sim) : Sim := fun i j => ratAbs (S0 i j)
 
+/-- l.485 (`_calculate_non_local_adjacency`): the documented distance weight
+`0.5 * (np.tanh(a * (d - d_min)) + 1)` for an abstract hyperbolic tangent `th` (whatever
+function with values in `[-1, 1]` the numerical library supplies) -/
+def dampOf (th : Rat → Rat) (a dmin d : Rat) : Rat := (1 / 2) * (th (a * (d - dmin)) + 1)
+
+/-- the weight matrix of a grid with angular distances `dist` -/
+def dampMat (th : Rat → Rat) (a dmin : Rat) (dist : Sim) : Sim :=
+  fun i j => dampOf th a dmin (dist i j)
+
 /-- l.483: `similarity_measure * (0.5 * (tanh(a (d - d_min)) + 1))`, only when `non_local` -/
 def weighted (nl : Bool) (S damp : Sim) : Sim :=
   fun i j => if nl then S i j * damp i j else S i j
@@ -79,6 +88,39 @@ bit pattern of the requested density (`0 ≤ ρ ≤ 1`). -/
 def floatIndex (ρbits : UInt64) (len : Nat) : Nat :=
   (((1.0 : Float) - Float.ofBits ρbits) * len.toFloat).floor.toUInt64.toNat
 
+/-! ### IEEE-754 binary64 evaluation of the quantile index, in exact rational arithmetic
+
+`int((1 - link_density) * len(flat_corr))` is evaluated by CPython in double precision: the
+subtraction and the product are each rounded to nearest, ties to even.  `rn53` is that rounding
+for positive rationals in the normal range (all that occurs: `1 - ρ` is `0` or `≥ 2⁻⁵³`,
+`len < 2⁵³`). -/
+
+/-- `2 ^ z` for an integer exponent -/
+def twoPow (z : Int) : Rat :=
+  if 0 ≤ z then ((2 ^ z.toNat : Nat) : Rat) else 1 / ((2 ^ (-z).toNat : Nat) : Rat)
+
+/-- round to the nearest integer, ties to even -/
+def roundHalfEven (x : Rat) : Int :=
+  let f := x.floor
+  let r := x - (f : Rat)
+  if r < 1 / 2 then f else if 1 / 2 < r then f + 1 else if f % 2 = 0 then f else f + 1
+
+/-- the binary exponent `e` of `x > 0`: `2^e ≤ x < 2^(e+1)` -/
+def binExp (x : Rat) : Int :=
+  let e0 : Int := (Nat.log2 x.num.toNat : Int) - (Nat.log2 x.den : Int)
+  if twoPow e0 ≤ x then e0 else e0 - 1
+
+/-- round-to-nearest-even to a 53-bit significand -/
+def rn53 (x : Rat) : Rat :=
+  if x ≤ 0 then 0 else
+    let ulp := twoPow (binExp x - 52)
+    (roundHalfEven (x / ulp) : Rat) * ulp
+
+/-- `int((1 - link_density) * len(flat_corr))` as CPython evaluates it; `ρ` is the exact value of
+the double passed as `link_density` (`0 ≤ ρ ≤ 1`) -/
+def ieeeIndex (ρ : Rat) (len : Nat) : Nat :=
+  (rn53 (rn53 (1 - ρ) * (len : Rat))).floor.toNat
+
 /-! ### the object and its setters -/
 
 structure Net where
@@ -109,15 +151,32 @@ def Net.setLinkDensity (s : Net) (k : Nat) : Option Net :=
 def Net.setNonLocal (s : Net) (b : Bool) : Net :=
   if s.nonLocal != b then ({ s with nonLocal := b }).setThreshold s.θ else s
 
+/-- `_regenerate_network` (l.131) after a data-driven subclass has stored a newly estimated
+similarity `S1` in `_similarity_measure` (`set_winter_only`, `set_max_delay`, `set_directed`):
+`ClimateNetwork.__init__(self, similarity_measure=S1, threshold=self._threshold,
+non_local=self._non_local, directed=self.directed, …)` takes the absolute value again and, the
+threshold being set, calls `set_threshold(self._threshold)`. -/
+def Net.regenerate (s : Net) (S1 : Sim) : Net :=
+  ({ s with S := absSim S1 }).setThreshold s.θ
+
 inductive Op where
   | thr (θ : Rat)
   | dens (k : Nat)
   | nl (b : Bool)
+  /-- a subclass setter that re-derives the similarity from data, then `_regenerate_network` -/
+  | resim (S1 : Sim)
 
 def Net.step (s : Net) : Op → Option Net
   | .thr θ => some (s.setThreshold θ)
   | .dens k => s.setLinkDensity k
   | .nl b => some (s.setNonLocal b)
+  | .resim S1 => some (s.regenerate S1)
+
+/-- the raw similarity the object was last given: the constructor's, or the latest re-derived one -/
+def lastSim (S0 : Sim) : List Op → Sim
+  | [] => S0
+  | .resim S1 :: os => lastSim S1 os
+  | _ :: os => lastSim S0 os
 
 /-- run a history; `none` as soon as one call raises -/
 def Net.run (s : Net) : List Op → Option Net
